@@ -46,21 +46,41 @@ Definition sufficient (cfg : list bs) (level : N) : bool :=
 Inductive hmethod := HGet | HPost | HOther.
 Inductive certtype := TSsh | TX509 | TKube | TBogus.   (* form field "type"; absent = ssh *)
 
+(* ---- the credentials a request carries beside the connection's client certificate.  They are a
+   COMBINATION: the auth_cookie (the last one, if several are sent) and the Authorization: Basic
+   header can both be present, next to a client certificate or not.
+
+   The session cookie is the token as it is on the wire: its iss and aud claims are byte strings, and
+   whether they denote this keymaster is decided by comparing them with the server's issuer string
+   (token_of below), not an input. *)
+Record wtoken := {
+  w_signer_trusted : bool;    (* verifies under one of KeymasterPublicKeys *)
+  w_alg_allowed : bool;       (* header alg is in the list derived from the trusted keys *)
+  w_tampered : bool;
+  w_iss : bs;                 (* claim iss *)
+  w_aud : list bs;            (* claim aud *)
+  w_kind : N;                 (* token_type: 0 keymaster_auth, 1 cli identity, other *)
+  w_nbf : Z; w_exp : Z; w_iat : Z;
+  w_sub : N; w_level : N }.
+
+Record basic := {
+  b_user : N;                 (* user name after reprocessUsername *)
+  b_ok : bool;                (* the password backend accepts the pair *)
+  b_err : bool }.             (* the password backend fails *)
+
 Record certreq := {
   q_method : hmethod;
   q_origin : origin;
   q_tls : option tlsinfo;
-  q_cred : cred;
+  q_cookie : option wtoken;    (* the last cookie named auth_cookie; a value that is no JWT at all is a
+                                  token without trusted signer *)
+  q_basic : option basic;      (* Authorization: Basic *)
   q_target : bs;               (* r.URL.Path[len(certgenPath):], raw *)
   q_type : certtype;
   q_form_ok : bool;            (* multipart body parses; duration absent or parses into (0, 24h] (C03) *)
   q_key : option (N * bool);   (* Some (k, ed25519): pubkeyfile present, well formed for the requested
                                   type and strong enough (C10); k identifies the submitted key *)
   q_add_groups : bool }.       (* form field addGroups = "true" *)
-
-Definition auth_request (q : certreq) : request :=
-  {| r_get := match q_method q with HGet => true | _ => false end;
-     r_origin := q_origin q; r_tls := q_tls q; r_cred := q_cred q |}.
 
 (* ---- server state as far as the handler reads it.  The key material is the state record of the
    sealing model (Model/Seal.v: Signer, Ed25519Signer, caCertDer, KeymasterPublicKeys), so that
@@ -71,10 +91,62 @@ Record server := {
   s_cfg : list bs;                       (* Config.Base.AllowedAuthBackendsForCerts *)
   s_name : N -> bs;                      (* the name a subject number stands for *)
   s_host : bs;                           (* HostIdentity *)
+  s_addr : bs;                           (* Config.Base.HttpAddress *)
   s_templates : list (bs * bs);          (* Config.Base.SSHCertConfig.Extensions *)
   s_realm : option bs;                   (* state.KerberosRealm *)
   s_groups : bs -> option (list bs);     (* getUserGroups; None = the lookup failed *)
   s_methods : bs -> option (list bs) }.  (* getServiceMethods *)
+
+(* jwt.go idpGetIssuer: "https://" + HostIdentity, followed by the listen address unless that is ":443" *)
+Definition s_https : bs := [104;116;116;112;115;58;47;47].   (* "https://" *)
+Definition s_port443 : bs := [58;52;52;51].   (* ":443" *)
+Definition issuer_of (st : server) : bs :=
+  s_https ++ s_host st ++ (if bs_eqb (s_addr st) s_port443 then [] else s_addr st).
+
+(* getAuthInfoFromJWT: `inboundJWT.Issuer != issuer`, `len(Audience) < 1 || Audience[0] != issuer` - string
+   equality with the server's issuer *)
+Definition aud0_is (aud : list bs) (x : bs) : bool :=
+  match aud with a :: _ => bs_eqb a x | [] => false end.
+Definition token_of (issuer : bs) (w : wtoken) : token :=
+  {| t_signer_trusted := w_signer_trusted w; t_alg_allowed := w_alg_allowed w; t_tampered := w_tampered w;
+     t_iss_ok := bs_eqb (w_iss w) issuer; t_aud_ok := aud0_is (w_aud w) issuer;
+     t_kind := w_kind w; t_nbf := w_nbf w; t_exp := w_exp w; t_iat := w_iat w;
+     t_sub := w_sub w; t_level := w_level w |}.
+
+(* what checkAuth's code after the certificate branch goes by: the auth_cookie if there is one -
+   whatever it is worth, a cookie that does not verify is a refusal and no fall-through - and the
+   Basic header only when the request carries no auth_cookie at all *)
+Definition carried_cred (st : server) (q : certreq) : cred :=
+  match q_cookie q with
+  | Some w => Cookie (token_of (issuer_of st) w)
+  | None => match q_basic q with
+            | Some b => Basic (b_user b) (b_ok b) (b_err b)
+            | None => NoCred
+            end
+  end.
+
+(* `tlsAuthUser != ""`, `authData.Username != ""`: a client certificate whose common name is the empty
+   string is no identity.  getUsernameIfKeymasterSigned's answer is dropped; getUsernameIfIPRestricted
+   still runs on it - its user error is the 403, its internal error the 500 - and when it accepts the
+   certificate (peer inside a block, "" configured as automation user, not revoked) the empty name is
+   not returned either: the request goes on to the cookie code as if it had no certificate. *)
+Definition without_km (c : tlsinfo) : tlsinfo :=
+  {| c_chain2 := c_chain2 c; c_issuer := c_issuer c; c_issuer_key_trusted := false;
+     c_cn := c_cn c; c_denied := c_denied c; c_not_before := c_not_before c; c_ip_error := c_ip_error c;
+     c_ip_valid := c_ip_valid c; c_automation := c_automation c; c_revoked := c_revoked c |}.
+Definition effective_tls (st : server) (q : certreq) : option tlsinfo :=
+  match q_tls q with
+  | Some c =>
+      match s_name st (c_cn c) with
+      | [] => match ip_restricted c with IpOk => None | _ => Some (without_km c) end
+      | _ :: _ => Some c
+      end
+  | None => None
+  end.
+
+Definition auth_request (st : server) (q : certreq) : request :=
+  {| r_get := match q_method q with HGet => true | _ => false end;
+     r_origin := q_origin q; r_tls := effective_tls st q; r_cred := carried_cred st q |}.
 
 Definition s_sealed (st : server) : bool := negb (Seal.is_some (Seal.signer (s_keys st))).   (* state.Signer == nil *)
 Definition s_ed25519_ca (st : server) : bool := Seal.is_some (Seal.ed (s_keys st)).          (* state.Ed25519Signer != nil *)
@@ -97,7 +169,11 @@ Record certdesc := {
   d_orgs : list bs;
   d_groups : list bs;           (* group-list extension *)
   d_methods : list bs;          (* service-method extension *)
-  d_krb : option (bs * bs) }.   (* PKINIT SAN: (realm, principal) *)
+  d_krb : option (bs * bs);     (* PKINIT SAN: (realm, principal) *)
+  d_other_names : list bs }.    (* every other identity the certificate carries: further principals or critical
+                                   options (SSH); DNS / e-mail / URI / address / directory / other-name entries of
+                                   the subject alternative name, further subject attributes, a second common
+                                   name (X.509) *)
 
 Inductive outcome := Issued (user : N) (c : certdesc) | Refused (code : N).
 
@@ -159,7 +235,7 @@ Definition ssh_cert (st : server) (u : N) (user : bs) (q : certreq) : outcome :=
                            d_key := k; d_user_type := true; d_is_ca := false; d_ekus := [];
                            d_exts := ssh_extensions custom;
                            d_signer := if ed then ed_key_of st else main_key_of st;
-                           d_orgs := []; d_groups := []; d_methods := []; d_krb := None |}
+                           d_orgs := []; d_groups := []; d_methods := []; d_krb := None; d_other_names := [] |}
            end
   end.
 
@@ -181,7 +257,8 @@ Definition x509_cert (st : server) (u : N) (user : bs) (q : certreq) (kube : boo
                           d_orgs := if kube then user_groups else [s_keymaster];
                           d_groups := if q_add_groups q then user_groups else [];
                           d_methods := methods;
-                          d_krb := match s_realm st with Some r => Some (r, user) | None => None end |}
+                          d_krb := match s_realm st with Some r => Some (r, user) | None => None end;
+                          d_other_names := [] |}
           end
       end
   end.
@@ -189,7 +266,7 @@ Definition x509_cert (st : server) (u : N) (user : bs) (q : certreq) (kube : boo
 (* certGenHandler, in source order *)
 Definition certgen (st : server) (now : Z) (limiter_ok : bool) (q : certreq) : outcome :=
   if s_sealed st then Refused 500 else
-  match check_auth now limiter_ok bAny (auth_request q) with
+  match check_auth now limiter_ok bAny (auth_request st q) with
   | Refuse c => Refused c
   | Admit u level _ =>
       if negb (sufficient (s_cfg st) level) then Refused 401
@@ -215,9 +292,9 @@ End Expand.
        response: the client saw an empty 200 (code 0 here = nothing written);
    (2) writeFailureResponse rendered the second-factor page for HTML clients holding a valid
        password or federated session without writing the 401 status (so: 200). *)
-Definition old_status (html : bool) (now : Z) (q : certreq) (code : N) : N :=
+Definition old_status (html : bool) (st : server) (now : Z) (q : certreq) (code : N) : N :=
   if (code =? 401) && html then
-    match q_cred q with
+    match carried_cred st q with
     | Cookie t =>
         if token_ok now t && negb (t_exp t <? now)%Z &&
            (hasb (t_level t) bPassword || hasb (t_level t) bFederated) then 200 else code
@@ -234,7 +311,7 @@ Definition certgen_old (expand : bs -> bs -> option bs) (html : bool) (st : serv
                     end in
   if negb (s_sealed st) && bad_origin then Refused 0
   else match certgen expand st now limiter_ok q with
-       | Refused c => Refused (old_status html now q c)
+       | Refused c => Refused (old_status html st now q c)
        | r => r
        end.
 
@@ -272,7 +349,18 @@ Definition with_ip_valid (c : tlsinfo) (v : bool) : tlsinfo :=
 Definition on_conn (q : certreq) (blocks : option (list (N * N))) (cn : conn) : certreq :=
   {| q_method := q_method q; q_origin := q_origin q;
      q_tls := match q_tls q with Some c => Some (with_ip_valid c (ip_valid blocks cn)) | None => None end;
-     q_cred := q_cred q; q_target := q_target q; q_type := q_type q; q_form_ok := q_form_ok q;
+     q_cookie := q_cookie q; q_basic := q_basic q; q_target := q_target q; q_type := q_type q; q_form_ok := q_form_ok q;
+     q_key := q_key q; q_add_groups := q_add_groups q |}.
+
+(* the same request carrying other credentials beside its client certificate *)
+Definition with_creds (q : certreq) (ck : option wtoken) (b : option basic) : certreq :=
+  {| q_method := q_method q; q_origin := q_origin q; q_tls := q_tls q;
+     q_cookie := ck; q_basic := b; q_target := q_target q; q_type := q_type q; q_form_ok := q_form_ok q;
+     q_key := q_key q; q_add_groups := q_add_groups q |}.
+
+Definition without_tls (q : certreq) : certreq :=
+  {| q_method := q_method q; q_origin := q_origin q; q_tls := None;
+     q_cookie := q_cookie q; q_basic := q_basic q; q_target := q_target q; q_type := q_type q; q_form_ok := q_form_ok q;
      q_key := q_key q; q_add_groups := q_add_groups q |}.
 
 (* ---- user-name normalisation (app.go reprocessUsername) and the two places that mint a
